@@ -73,6 +73,8 @@ def run(ctx):
                               "attribute_op_then_commit_part", seed_base=820000)
     engine_check.scenario_run(ctx, "scen_engine.placeholder_follow_builder", MONITORS, nontrivial, RULE, 16, 300, 12,
                               "placeholder_follower_part", seed_base=830000)
+    engine_check.scenario_run(ctx, "scen_engine.version_mix_attr_builder", MONITORS, nontrivial, RULE, 24, 400, 5,
+                              "attributes_under_other_versions_part", seed_base=890000)
     twin_pass(ctx)
     real_backend_pass(ctx)
     # M17: whole connections (several requests each, header options that differ from request to request - Maximum
@@ -342,6 +344,13 @@ def real_backend_pass(ctx):
 
 def search(ctx, broken):
     engine_check.standard_search(ctx, PROFILE, MONITORS, 25, builder="props.c08.builder")
+    ev = ctx.coverage.get("evaluations", 0)
+    # the scripted scenarios too (implementation monitors only)
+    for b, ln in (("scen_engine.version_mix_attr_builder", 5), ("scen_engine.read_commit_builder", 16),
+                  ("scen_engine.attr_commit_builder", 14), ("scen_engine.placeholder_follow_builder", 12)):
+        engine_check.standard_search(ctx, {"builtin_policies_only": True}, MONITORS, ln, builder=b, n=24)
+        ev += ctx.coverage.get("evaluations", 0)
+    ctx.coverage["evaluations"] = ev
 
 
 def replay(ctx, rep):
